@@ -70,6 +70,8 @@ def cross(jobs, args):
             print(name, " ".join(f"{k}:{v}" for k, v in res.items() if v != "-"), flush=True)
     json.dump(matrix, open(os.path.join(VD, "seeded", "MATRIX.json"), "w"), indent=1, sort_keys=True)
 
+run_harm_props = None
+
 def run_harm(patch, props):
     """apply one behaviour-preserving change and run EVERY claimed check on it: any VIOLATION is a false alarm"""
     d = tempfile.mkdtemp(prefix="govc-harm-")
@@ -95,13 +97,41 @@ def run_harm(patch, props):
     finally:
         shutil.rmtree(d, ignore_errors=True)
 
+def props_by_pkg():
+    """package directory (relative to the repo) -> properties that have a unit under contract there"""
+    import re
+    out = {}
+    for f in glob.glob(os.path.join(REPO, "**", "verif_contracts.go"), recursive=True):
+        d = os.path.relpath(os.path.dirname(f), REPO)
+        for m in re.finditer(r"^//@\s+props\s+(.*)$", open(f).read(), re.M):
+            for p in m.group(1).split():
+                if re.fullmatch(r"C\d\d", p):
+                    out.setdefault(d, set()).add(p)
+    return out
+
 def harm(jobs, root):
     man = json.load(open(os.path.join(VD, "MANIFEST.json")))
     props = [c["property_id"] for c in man["checks"]]
+    global run_harm_props
+    if "--touched-only" in sys.argv:
+        # modular verification: a change can only affect the units of the packages it touches (plus units that
+        # inline small helpers from there: same package in practice); run just those properties' checks
+        bypkg = props_by_pkg()
+        allp = props
+        def pick(patch):
+            dirs = set()
+            for l in open(patch):
+                if l.startswith("+++ b/"):
+                    dirs.add(os.path.dirname(l[6:].strip()))
+            sel = set()
+            for d in dirs:
+                sel |= bypkg.get(d, set())
+            return [p for p in allp if p in sel]
+        run_harm_props = pick
     patches = sorted(glob.glob(os.path.join(root, "**", "patch.diff"), recursive=True) + glob.glob(os.path.join(root, "**", "*.patch"), recursive=True))
     results = {}
     with concurrent.futures.ThreadPoolExecutor(max_workers=jobs) as ex:
-        for patch, res in ex.map(lambda pt: run_harm(pt, props), patches):
+        for patch, res in ex.map(lambda pt: run_harm(pt, run_harm_props(pt) if run_harm_props else props), patches):
             results[patch] = res
             bad = {k: v for k, v in res.items() if v.startswith("VIOLATION") or v.startswith("error")}
             und = [k for k, v in res.items() if v.startswith("undecided")]
